@@ -29,8 +29,8 @@ FLOORS = {
     "quick": {"evaluations": 20000, "distinct": 10000,
               "counters": {"template_side": 10000, "python_side": 5000, "expect_typeerror": 2000,
                            "default_used": 2000}},
-    "thorough": {"evaluations": 150000, "distinct": 100000,
-                 "counters": {"template_side": 100000, "python_side": 50000,
+    "thorough": {"evaluations": 150000, "distinct": 60000,
+                 "counters": {"template_side": 100000, "python_side": 30000,
                               "expect_typeerror": 20000, "default_used": 20000}},
 }
 
